@@ -31,6 +31,7 @@ mod uri_file_path_ext;
 pub mod verif_hooks {
     pub use crate::format::char_index_to_position;
     pub use crate::hover::LineChar;
+    pub use crate::hover::verif_find_under_cursor;
     pub use crate::hover::verif_get_index_of_line_char as get_index_of_line_char;
     pub use crate::semantic_tokens::delta_line_delta_start;
     pub use crate::semantic_tokens::verif_token_lines;
